@@ -289,3 +289,155 @@ pub proof fn lemma_history<K, E>(g: GS<K, E>, ops: Seq<Op<K, E>>, n: int)
         lemma_apply_inv(gp, ops[n - 1]);
     }
 }
+
+// ===== undirected reading of the same state (C02) =====
+// out(u): half-edges u created; inn(u): half-edges its peers created; adj(u) = out(u) ++ inn(u).
+// The symmetry invariant SYM is the same formula as MIRROR.
+pub open spec fn gu_adj<K, E>(g: GS<K, E>, u: K) -> Seq<(K, E)> { g.out[u] + g.inn[u] }
+
+pub open spec fn gu_connected<K, E>(g: GS<K, E>, u: K, v: K) -> bool {
+    first_idx(g.out[u], v) >= 0 || first_idx(g.inn[u], v) >= 0
+}
+
+pub open spec fn gu_try_connect<K, E>(g: GS<K, E>, u: K, v: K, e: E) -> (GS<K, E>, bool) {
+    if gu_connected(g, u, v) { (g, false) } else { (g_connect(g, u, v, e), true) }
+}
+
+// removes one edge between u and v (the oldest one v created, else the oldest one u created)
+// together with its partner half at the other endpoint
+pub open spec fn gu_disconnect<K, E>(g: GS<K, E>, u: K, v: K) -> (GS<K, E>, Option<E>) {
+    if first_idx(g.inn[u], v) >= 0 { g_disconnect(g, v, u) } else { g_disconnect(g, u, v) }
+}
+
+pub proof fn lemma_gu_disconnect_inv<K, E>(g: GS<K, E>, u: K, v: K)
+    requires g.inv(), g.dom().contains(u)
+    ensures
+        gu_disconnect(g, u, v).0.inv(),
+        gu_disconnect(g, u, v).0.dom() == g.dom(),
+        gu_disconnect(g, u, v).1.is_some() <==> gu_connected(g, u, v),
+        first_idx(g.inn[u], v) >= 0 ==> g.dom().contains(v) && first_idx(g.out[v], u) >= 0
+            && g.out[v][first_idx(g.out[v], u)].1 == g.inn[u][first_idx(g.inn[u], v)].1,
+        first_idx(g.out[u], v) >= 0 ==> g.dom().contains(v) && first_idx(g.inn[v], u) >= 0
+            && g.inn[v][first_idx(g.inn[v], u)].1 == g.out[u][first_idx(g.out[u], v)].1,
+{
+    if first_idx(g.inn[u], v) >= 0 {
+        lemma_first_idx_props(g.inn[u], v);
+        let j = first_idx(g.inn[u], v);
+        assert(g.dom().contains(g.inn[u][j].0));
+        lemma_proj_first(g.inn[u], v);
+        assert(proj(g.out[v], u) == proj(g.inn[u], v));
+        lemma_proj_first(g.out[v], u);
+        lemma_disconnect_inv(g, v, u);
+    }
+    if first_idx(g.out[u], v) >= 0 {
+        lemma_disconnect_inv(g, u, v);
+    }
+    if first_idx(g.inn[u], v) < 0 {
+        lemma_disconnect_inv(g, u, v);
+    }
+}
+
+// is_connected answers the same from both ends
+pub proof fn lemma_gu_connected_sym<K, E>(g: GS<K, E>, u: K, v: K)
+    requires g.inv(), g.dom().contains(u), g.dom().contains(v)
+    ensures gu_connected(g, u, v) == gu_connected(g, v, u)
+{
+    lemma_proj_first(g.out[u], v);
+    lemma_proj_first(g.inn[u], v);
+    lemma_proj_first(g.out[v], u);
+    lemma_proj_first(g.inn[v], u);
+    assert(proj(g.out[u], v) == proj(g.inn[v], u));
+    assert(proj(g.out[v], u) == proj(g.inn[u], v));
+}
+
+// number of entries (k, e) in a list
+pub open spec fn count_kv<K, E>(s: Seq<(K, E)>, k: K, e: E) -> nat
+    decreases s.len()
+{
+    if s.len() == 0 { 0 } else { (if s[0].0 == k && s[0].1 == e { 1nat } else { 0nat }) + count_kv(s.drop_first(), k, e) }
+}
+pub open spec fn count_v<E>(s: Seq<E>, e: E) -> nat
+    decreases s.len()
+{
+    if s.len() == 0 { 0 } else { (if s[0] == e { 1nat } else { 0nat }) + count_v(s.drop_first(), e) }
+}
+pub proof fn lemma_count_proj<K, E>(s: Seq<(K, E)>, k: K, e: E)
+    ensures count_kv(s, k, e) == count_v(proj(s, k), e)
+    decreases s.len()
+{
+    if s.len() > 0 {
+        lemma_count_proj(s.drop_first(), k, e);
+        if s[0].0 == k {
+            let p = seq![s[0].1] + proj(s.drop_first(), k);
+            assert(p.drop_first() =~= proj(s.drop_first(), k));
+            assert(p[0] == s[0].1);
+        }
+    }
+}
+pub proof fn lemma_count_concat<K, E>(a: Seq<(K, E)>, b: Seq<(K, E)>, k: K, e: E)
+    ensures count_kv(a + b, k, e) == count_kv(a, k, e) + count_kv(b, k, e)
+    decreases a.len()
+{
+    if a.len() == 0 {
+        assert(a + b =~= b);
+    } else {
+        assert((a + b).drop_first() =~= a.drop_first() + b);
+        lemma_count_concat(a.drop_first(), b, k, e);
+    }
+}
+
+// C02: u lists an edge to v with value e exactly as many times as v lists one to u
+pub proof fn lemma_gu_sym_counts<K, E>(g: GS<K, E>, u: K, v: K, e: E)
+    requires g.inv(), g.dom().contains(u), g.dom().contains(v)
+    ensures count_kv(gu_adj(g, u), v, e) == count_kv(gu_adj(g, v), u, e)
+{
+    lemma_count_concat(g.out[u], g.inn[u], v, e);
+    lemma_count_concat(g.out[v], g.inn[v], u, e);
+    lemma_count_proj(g.out[u], v, e);
+    lemma_count_proj(g.inn[u], v, e);
+    lemma_count_proj(g.out[v], u, e);
+    lemma_count_proj(g.inn[v], u, e);
+    assert(proj(g.out[u], v) == proj(g.inn[v], u));
+    assert(proj(g.out[v], u) == proj(g.inn[u], v));
+}
+
+// undirected histories
+pub open spec fn apply_u<K, E>(g: GS<K, E>, op: Op<K, E>) -> GS<K, E> {
+    match op {
+        Op::Connect(u, v, e) => g_connect(g, u, v, e),
+        Op::TryConnect(u, v, e) => gu_try_connect(g, u, v, e).0,
+        Op::Disconnect(u, v) => gu_disconnect(g, u, v).0,
+        Op::Isolate(u) => g_isolate(g, u),
+    }
+}
+pub open spec fn run_u<K, E>(g: GS<K, E>, ops: Seq<Op<K, E>>) -> GS<K, E>
+    decreases ops.len()
+{
+    if ops.len() == 0 { g } else { apply_u(run_u(g, ops.drop_last()), ops.last()) }
+}
+pub proof fn lemma_apply_u_inv<K, E>(g: GS<K, E>, op: Op<K, E>)
+    requires g.inv(), op_ok(g, op)
+    ensures apply_u(g, op).inv(), apply_u(g, op).dom() == g.dom()
+{
+    match op {
+        Op::Connect(u, v, e) => { lemma_connect_inv(g, u, v, e); }
+        Op::TryConnect(u, v, e) => { lemma_connect_inv(g, u, v, e); }
+        Op::Disconnect(u, v) => { lemma_gu_disconnect_inv(g, u, v); }
+        Op::Isolate(u) => { lemma_isolate_inv(g, u); }
+    }
+}
+pub proof fn lemma_history_u<K, E>(g: GS<K, E>, ops: Seq<Op<K, E>>, n: int)
+    requires g.inv(), ops_ok(g.dom(), ops), 0 <= n <= ops.len()
+    ensures run_u(g, ops.take(n)).inv(), run_u(g, ops.take(n)).dom() == g.dom()
+    decreases n
+{
+    if n == 0 {
+        assert(ops.take(0).len() == 0);
+    } else {
+        lemma_history_u(g, ops, n - 1);
+        let p = ops.take(n);
+        assert(p.drop_last() =~= ops.take(n - 1));
+        assert(p.last() == ops[n - 1]);
+        lemma_apply_u_inv(run_u(g, ops.take(n - 1)), ops[n - 1]);
+    }
+}
